@@ -71,6 +71,22 @@ Definition apply_edits (text : str) (es : list edit) : str :=
   let offs := line_offsets text in
   fold_left (fun raw e => apply_off raw (edit_off offs e)) (sort_desc (outermost es)) text.
 
+(* remove_node for an AssignmentNode with action 'rm' (rm_target of an assigned target),
+   rewriter.py:1040-1062 after the fix C17-rewriter-rm-target-last-statement: the value (a call or
+   array literal, extent vs..ve) is removed first, then from the start of the statement the name,
+   the '=' and the white space that follows are removed. *)
+Definition is_ws (c : char) : bool := (c =? 32) || (c =? 10) || (c =? 9).
+Fixpoint find_eq (s : str) : nat :=
+  match s with [] => O | c :: r => if c =? 61 then O else S (find_eq r) end.
+Fixpoint span_ws (s : str) : nat :=
+  match s with c :: r => if is_ws c then S (span_ws r) else O | [] => O end.
+Definition rm_assign (raw : str) (start vs ve : nat) : str :=
+  let raw1 := firstn vs raw ++ skipn ve raw in
+  let tail := skipn start raw1 in
+  let k := S (find_eq tail) in
+  let w := span_ws (skipn k tail) in
+  firstn start raw1 ++ skipn (start + k + w) raw1.
+
 (* The meaning: with extents given as offsets, ascending and pairwise disjoint, everything
    outside the extents is kept in order and each extent is replaced by its new text.
    [txt] is the text from offset [off] on. *)
